@@ -83,11 +83,12 @@ def list_op(r, op, ti, si, target, shifting=True):
     raise AssertionError(op)
 
 
-def writer_program(r, kind, stratum, nthreads=None, max_ops=2):
+def writer_program(r, kind, stratum, nthreads=None, max_ops=2, topo=None):
     """A small program of concurrent writers on one resource. Returns (prog_parts, meta)."""
     init = copy.deepcopy(DICT_INIT if kind == "dict" else LIST_INIT)
-    topo = r.choice(["same", "same", "two_obj", "two_obj", "root_child", "two_children", "same_child_twice",
-                     "two_obj_children"])
+    topo_ = r.choice(["same", "same", "two_obj", "two_obj", "root_child", "two_children", "same_child_twice",
+                      "two_obj_children", "own_obj_in_thread"])
+    topo = topo or topo_
     nthreads = nthreads or r.choice([2, 2, 2, 3])
     roots, pre = [[0, 0]], []
     # handle table: hid -> (plain target getter path, kind, role)
@@ -107,6 +108,10 @@ def writer_program(r, kind, stratum, nthreads=None, max_ops=2):
         handles = [(0, [])] * nthreads
     elif topo == "two_obj":
         roots = [[i, 0] for i in range(nthreads)]
+        handles = [(i, []) for i in range(nthreads)]
+    elif topo == "own_obj_in_thread":
+        # every thread constructs its own object on the (not yet opened) file before it writes
+        roots = []
         handles = [(i, []) for i in range(nthreads)]
     elif topo == "root_child":
         p = r.choice(child_paths)
@@ -151,17 +156,20 @@ def writer_program(r, kind, stratum, nthreads=None, max_ops=2):
                 args = list_op(r, op, ti, si, t)
             steps.append({"op": op, "h": hid, "path": [], "args": args})
             ops_used.append(op)
+        if topo == "own_obj_in_thread":
+            steps.insert(0, {"new": hid, "res": 0})
         threads.append(steps)
     if stratum != "clean" and not any(o in KNOWN_DICT + KNOWN_LIST for o in ops_used):
         # make sure the stratum contains what it is named after
         ti = r.randrange(nthreads)
         hid, path = handles[ti]
         t = tgt(path)
+        first = 1 if topo == "own_obj_in_thread" else 0
         if not (not path and child_top):
             if isinstance(t, dict):
                 op = r.choice(KNOWN_DICT)
-                threads[ti][0] = {"op": op, "h": hid, "path": [], "args": dict_op(r, op, ti, 0, t)}
+                threads[ti][first] = {"op": op, "h": hid, "path": [], "args": dict_op(r, op, ti, 0, t)}
             else:
                 op = r.choice(KNOWN_LIST)
-                threads[ti][0] = {"op": op, "h": hid, "path": [], "args": list_op(r, op, ti, 0, t)}
+                threads[ti][first] = {"op": op, "h": hid, "path": [], "args": list_op(r, op, ti, 0, t)}
     return {"init": init, "roots": roots, "pre": pre, "threads": threads}, {"topology": topo}
